@@ -4,3 +4,5 @@ import Peppi.Props.C06
 #print axioms Peppi.Props.C06.ubj_fuel
 #print axioms Peppi.Props.C06.parseEvent_consumes
 #print axioms Peppi.Props.C06.readArrowFrames_noPanic
+#print axioms Peppi.Props.C06.run_shrinks
+#print axioms Peppi.Props.C06.run_readProg
